@@ -47,15 +47,13 @@ def inputs(ctx, cases, wd):
         p = os.path.join(ind, "v%d.exp" % i)
         open(p, "w", encoding="latin-1").write(express.render(c["schema"]))
         out.append(("v%d" % i, p, "valid", None, c))
-        muts = sorted(c["mutants"], key=lambda m: (m["class"], m["at"]))
+        muts = sorted(c["mutants"], key=lambda m: (m["class"], m["at"], m.get("pos", "")))
         if ctx.quick:
-            # every class on every schema, first position only
-            seen, sel = set(), []
+            # every class on every schema, one position each (rotating with the schema's index)
+            bycl = {}
             for m in muts:
-                if m["class"] not in seen:
-                    seen.add(m["class"])
-                    sel.append(m)
-            muts = sel
+                bycl.setdefault(m["class"], []).append(m)
+            muts = [ms[i % len(ms)] for cl, ms in sorted(bycl.items())]
         for k, m in enumerate(muts):
             p = os.path.join(ind, "m%d_%d.exp" % (i, k))
             open(p, "w", encoding="latin-1").write(express.mutate(c["schema"], m))
